@@ -244,39 +244,28 @@ func (m *ThrottleMon) hook(w *World) {
 	m.hooked = true
 	w.MQ.mu.Lock()
 	w.MQ.onReq = append(w.MQ.onReq, func(r *Req) {
-		if m.Limit <= 0 || !m.Governed(r) {
+		if m.Limit <= 0 {
+			return
+		}
+		// a request the scenario knows to be governed by a throttle must have
+		// been made through one (Req.Throttled is exact: taken from the call stack)
+		if m.Governed != nil && m.Governed(r) && !r.Throttled {
+			w.Fail("C19", "outside-throttle", "%s is governed by a throttle (limit %d) but was not made through one", r.CSubject, m.Limit)
+		}
+		if !r.Throttled {
 			return
 		}
 		n := 0
 		for _, p := range w.MQ.Pending() {
-			if m.Governed(p) {
+			if p.Throttled {
 				n++
 			}
 		}
 		if n > m.maxSeen {
 			m.maxSeen = n
 		}
-		// A re-check that was deferred because the subscription was busy with
-		// an earlier check is recognised by being the second governed access
-		// request for the same connection and resource.
-		if strings.HasPrefix(r.Subject, "access.") {
-			for _, o := range w.MQ.Requests() {
-				if o != r && o.Seq < r.Seq && o.Subject == r.Subject && m.Governed(o) && parseReq(o.Payload).CID == parseReq(r.Payload).CID && parseReq(o.Payload).Query == parseReq(r.Payload).Query {
-					if m.deferred == nil {
-						m.deferred = map[*Req]bool{}
-					}
-					m.deferred[r] = true
-				}
-			}
-		}
-		if lim := m.Limit * m.Throttles(w); n > lim {
-			kind := "limit-exceeded"
-			for _, p := range w.MQ.Pending() {
-				if m.deferred[p] {
-					kind = "limit-exceeded:deferred-reaccess"
-				}
-			}
-			w.Fail("C19", kind, "%d governed requests outstanding after %s was published; limit is %d x %d throttle(s)", n, r.CSubject, m.Limit, m.Throttles(w))
+		if lim := m.Limit * len(w.S.Throttles()); n > lim {
+			w.Fail("C19", "limit-exceeded", "%d throttled requests outstanding after %s was published; limit is %d x %d throttle(s)", n, r.CSubject, m.Limit, len(w.S.Throttles()))
 		}
 	})
 	w.MQ.mu.Unlock()
@@ -285,9 +274,9 @@ func (m *ThrottleMon) hook(w *World) {
 func (m *ThrottleMon) Step(w *World, _ string) {
 	m.hook(w)
 	// slot accounting: when the gateway is internally quiet every running slot
-	// of a throttle stands for an unanswered governed request (an answer
-	// releases its slot at once, and a released continuation has run), and a
-	// throttle with waiting callbacks is saturated
+	// of a throttle stands for an unanswered request made through a throttle
+	// (an answer releases its slot at once, and a released continuation has
+	// run), and a throttle with waiting callbacks is saturated
 	if m.Limit <= 0 || !w.internalQuiet() {
 		return
 	}
@@ -299,15 +288,18 @@ func (m *ThrottleMon) Step(w *World, _ string) {
 		if q > 0 && r < lim {
 			w.Fail("C19", "idle-slot", "a throttle has %d waiting callback(s) but only %d of %d slots in use", q, r, lim)
 		}
+		if r > lim {
+			w.Fail("C19", "limit-exceeded", "a throttle runs %d callbacks at once, its limit is %d", r, lim)
+		}
 	}
 	outstanding := 0
 	for _, r := range w.MQ.Pending() {
-		if m.Governed(r) {
+		if r.Throttled {
 			outstanding++
 		}
 	}
-	if running != outstanding && m.StrictSlots {
-		w.Fail("C19", "slot-not-released", "throttles have %d running slot(s) but %d governed request(s) are unanswered (%d callbacks waiting): an answer did not release its slot", running, outstanding, queued)
+	if running != outstanding {
+		w.Fail("C19", "slot-not-released", "throttles have %d running slot(s) but %d request(s) made through them are unanswered (%d callbacks waiting): an answer did not release its slot", running, outstanding, queued)
 	}
 }
 
